@@ -119,7 +119,18 @@ class Interp:
             return stub
         path, is_pkg = self.program.find(name)
         if path is None:
-            raise Unsupported(f"import of unknown module {name}")
+            import importlib.util
+            try:
+                known = importlib.util.find_spec(name) is not None
+            except Exception:  # noqa
+                known = False
+            if not known:
+                raise Unsupported(f"import of unknown module {name}")
+            # a real module without a model: importing it is harmless, using anything of it makes the obligation undecided
+            mod = ModuleV(name, {}, None)
+            mod.unmodelled = True
+            self.modules[name] = mod
+            return mod
         text, tree = self.program.read(path)
         # parent packages first (Python semantics)
         if "." in name:
@@ -188,6 +199,8 @@ class Interp:
         """Python truth value as a concrete bool (forks when symbolic)."""
         if isinstance(v, bool):
             return v
+        if isinstance(v, UnmodelledV):
+            raise Unsupported(f"use of {v.name} (not modelled): truth value")
         if v is None:
             return False
         if isinstance(v, SBool):
@@ -238,6 +251,8 @@ class Interp:
 
     def eq(self, a, b):
         """a == b as bool | SBool."""
+        if isinstance(a, UnmodelledV) or isinstance(b, UnmodelledV):
+            raise Unsupported(f"use of {(a if isinstance(a, UnmodelledV) else b).name} (not modelled): comparison")
         if a is b and not isinstance(a, (float, SReal)):
             if not isinstance(a, Instance):
                 return True
@@ -326,6 +341,8 @@ class Interp:
 
     def contains(self, container, item):
         """item in container -> bool | SBool"""
+        if isinstance(container, UnmodelledV) or isinstance(item, UnmodelledV):
+            raise Unsupported("use of an unmodelled library object: membership test")
         if isinstance(container, (PyList, PyDeque, PySet)):
             return ops.b_or(*[self.symtruth(self.eq(x, item)) for x in container.items])
         if isinstance(container, tuple):
@@ -418,6 +435,8 @@ class Interp:
                 return self.import_module(sub)
             if obj.path is None:
                 # a modelled library module (struct, enum, copy, ...): the real module may well have this attribute
+                if getattr(obj, "unmodelled", False):
+                    return UnmodelledV(f"{obj.name}.{name}")
                 raise Unsupported(f"{obj.name}.{name} is not modelled")
             self.throw("AttributeError", f"module {obj.name} has no attribute {name}")
         if isinstance(obj, SuperV):
@@ -436,6 +455,8 @@ class Interp:
             self.throw("AttributeError", f"super object has no attribute {name}")
         if isinstance(obj, Dummy):
             return Dummy(f"{obj.name}.{name}")
+        if isinstance(obj, UnmodelledV):
+            raise Unsupported(f"use of {obj.name} (not modelled): attribute {name}")
         return self.bm.value_attr(self, obj, name)
 
     def setattr(self, obj, name, val, fr=None):
@@ -475,6 +496,8 @@ class Interp:
             return self.instantiate(f, args, kwargs)
         if isinstance(f, Dummy):
             return Dummy(f.name + "()")
+        if isinstance(f, UnmodelledV):
+            return UnmodelledV(f.name + "()")
         if isinstance(f, Instance):
             c, _ = self.class_lookup(f.cls, "__call__")
             if c is not None:
@@ -657,6 +680,10 @@ class Interp:
                 sub = base + "." + al.name
                 path, _ = self.program.find(sub)
                 if path is None:
+                    if mod.path is None:      # modelled or unmodelled library module: the real one may well have this name
+                        v = UnmodelledV(f"{base}.{al.name}")
+                        fr.locals[al.asname or al.name] = v
+                        continue
                     self.throw("ImportError", f"cannot import name {al.name} from {base}")
                 v = self.import_module(sub)
             fr.locals[al.asname or al.name] = v
